@@ -83,6 +83,11 @@ CHECKS = {
         "from emitted Rust and emitted Python are compared directly (not via the reference); every comparison of a size "
         "field's target in any backend (incl. Java) uses a sentinel the parser produces. C++/Java layouts are not extracted.",
    ref="7/C07"),
+ "C16": dict(level="translation_validation", technique="static sizes baked into emitted code vs reference sizes; guard tightness; first-match evaluation of the Size lattice; sibling predicate agreement (syn)",
+   text="Decided through the consumers and the definitions of the size annotations: emitted size is a constant exactly when "
+        "the reference size is static and equals it; constant length guards are tight; Size::add/mul resolved over all 3x3 "
+        "constructor pairs; the delimitation predicates (payload/array/element size, optional => Dynamic, reversed padding "
+        "scan) agree across analyzer.rs and ast.rs. Schema entries no backend consumes are not decided.", ref="7/C16"),
 }
 NOT_APPLICABLE = {
  "C19": "Java backend: no Java front-end to the abstract interpreter can be built and validated in this sandbox "
